@@ -1006,5 +1006,362 @@ def correspondence(ck, cases: list[tuple[dict, dict]], tag: str) -> list[int]:
     return bad
 
 
+
+# =========================================================================== string tensors
+
+STRING_KINDS = ("list", "obj", "S", "proto", "deser", "ir.tensor")
+
+
+def observe_string(kind: str, shape, ss: list[bytes]) -> dict:
+    import numpy as np
+    import onnx
+    import onnx_ir as ir
+    from onnx_ir import serde
+    nl = lambda v: clist(cN(x) for x in v)  # noqa: E731
+    sl = clist(nl(x) for x in ss)
+    csh = clist(cN(d) for d in shape)
+    if kind == "list":
+        t, term = ir.StringTensor(list(ss), shape=ir.Shape(shape)), f"(SList {csh} {sl})"
+    elif kind == "obj":
+        a = np.empty(len(ss), dtype=object)
+        a[:] = ss
+        t, term = ir.StringTensor(a.reshape(shape)), f"(SObjArray {csh} {sl})"
+    elif kind == "S":
+        t, term = ir.StringTensor(np.array(ss, dtype=np.bytes_).reshape(shape)), f"(SBytesArray {csh} {sl})"
+    else:
+        tp = onnx.TensorProto()
+        tp.data_type = onnx.TensorProto.STRING
+        tp.dims.extend(shape)
+        tp.string_data.extend(ss)
+        if kind == "proto":
+            t, term = serde.TensorProtoTensor(tp), f"(SProto {csh} {sl})"
+        elif kind == "deser":
+            t, term = serde.deserialize_tensor(tp), f"(SList {csh} {sl})"
+        else:   # "ir.tensor": round trip through serialize_tensor of an object-array tensor
+            a = np.empty(len(ss), dtype=object)
+            a[:] = ss
+            t = serde.deserialize_tensor(serde.serialize_tensor(ir.StringTensor(a.reshape(shape))))
+            term = f"(SList {csh} {sl})"
+    arr = t.numpy()
+    np_elems = [bytes(x) for x in np.asarray(arr).reshape(-1).tolist()]
+    if kind == "proto":
+        data = list(tp.string_data)
+        nbytes = sum(len(x) for x in data)
+    else:
+        data = [bytes(x) for x in t.string_data()]
+        nbytes = int(t.nbytes)
+    try:
+        t.tobytes()
+        tob = "ok"
+    except Exception as e:  # noqa: BLE001
+        tob = common.exn_name(e)
+    return {"term": term, "numpy": np_elems, "data": data, "nbytes": nbytes, "dtype": int(t.dtype),
+            "shape": [int(d) for d in t.shape.numpy()], "np_shape": list(np.asarray(arr).shape), "tobytes": tob}
+
+
+def oracle_string(kind, shape, ss, obs) -> list[str]:
+    bad = []
+    if obs["dtype"] != 8:
+        bad.append("dtype is not STRING")
+    if obs["shape"] != list(shape) or obs["np_shape"] != list(shape):
+        bad.append(f"shape {obs['shape']} / numpy shape {obs['np_shape']} != {list(shape)}")
+    if obs["numpy"] != list(ss):
+        bad.append(f"numpy() elements {obs['numpy']} != {list(ss)}")
+    if obs["data"] != list(ss):
+        bad.append(f"string_data() {obs['data']} != {list(ss)}")
+    if obs["nbytes"] != sum(len(x) for x in ss):
+        bad.append(f"nbytes {obs['nbytes']} != {sum(len(x) for x in ss)}")
+    return bad
+
+
+def string_cases(ck):
+    rng = ck.rng
+    cases = []
+    alphabet = [b"", b"a", b"bb", b"\xff\xfe", b"x\x00y", b"caf\xc3\xa9", b"0123456789" * 3]
+    nul = [b"a\x00", b"\x00", b"zz\x00\x00"]
+    for kind in STRING_KINDS:
+        for n in (0, 1, 2, 3, 6):
+            for with_nul in (False, True):
+                if with_nul and n == 0:
+                    continue
+                ss = [rng.choice(alphabet) for _ in range(n)]
+                if with_nul:
+                    ss[rng.randrange(n)] = rng.choice(nul)
+                if kind == "S" and n and all(len(x) == 0 for x in ss):
+                    ss[0] = b"q"     # numpy cannot make an 'S0' array
+                shape = rng.choice(shapes_for(rng, n))
+                cases.append((kind, shape, ss, with_nul))
+    return cases
+
+
+def is_known_string(kind, ss, bad) -> bool:
+    """site of known finding string-trailing-nul: an element ending in NUL, numpy() only"""
+    return any(x.endswith(b"\x00") for x in ss) and all(b.startswith("numpy() elements") for b in bad) and kind != "obj"
+
+
+# =========================================================================== the check
+
+def shrink(spec: dict, workdir: str, fails) -> dict:
+    """greedy: fewer elements (flat shape), fewer destinations, simpler values"""
+    cur = json.loads(json.dumps(spec))
+    changed = True
+    while changed:
+        changed = False
+        n = len(cur["bits"])
+        for k in ([n // 2, n - 1] if n > 1 else [0] if n == 1 else []):
+            c2 = dict(cur, bits=cur["bits"][:k], shape=[k])
+            if fails(c2):
+                cur, changed = c2, True
+                break
+        if len(cur.get("dests", [])) > 1:
+            for d in cur["dests"]:
+                c2 = dict(cur, dests=[d])
+                if fails(c2):
+                    cur, changed = c2, True
+                    break
+        if len(cur["shape"]) != 1:
+            c2 = dict(cur, shape=[len(cur["bits"])])
+            if fails(c2):
+                cur, changed = c2, True
+    return cur
+
+
+def check_spec(spec: dict, workdir: str, third: bool = True) -> tuple[dict, list[str]]:
+    obs = observe(spec, workdir)
+    bad = oracle(spec, obs)
+    if third and not spec.get("malformed") and "construct_error" not in obs:
+        bad += third_voice(spec, obs, workdir)
+    return obs, bad
+
+
+def nontrivial(spec: dict) -> bool:
+    bw = BW(spec["dtype"])
+    n = len(spec["bits"])
+    p = spec.get("params", {})
+    return ((bw < 8 and n % (8 // bw) != 0) or (spec["rep"] == "external" and (p.get("pre", 0) > 0 or p.get("post", 0) == 0))
+            or (spec["rep"] == "proto" and p.get("field") not in ("raw", "helper", None))
+            or any(d["pos"] > 0 for d in spec.get("dests", [])) or n == 0 or bool(spec.get("malformed")))
+
+
+def env_contract_subbyte(ck) -> None:
+    """Environment contract used by `elem`: ml_dtypes reads a sub-byte integer from the low bits of its byte."""
+    import ml_dtypes
+    import numpy as np
+    for dt, bw, signed in ((ml_dtypes.int4, 4, True), (ml_dtypes.uint4, 4, False), (ml_dtypes.int2, 2, True),
+                           (ml_dtypes.uint2, 2, False)):
+        a = np.arange(256, dtype=np.uint8).view(dt).astype(np.int32)
+        for b in range(256):
+            lo = b & ((1 << bw) - 1)
+            want = lo - (1 << bw) if signed and lo >> (bw - 1) else lo
+            if int(a[b]) != want:
+                ck.broken("environment:ml_dtypes-low-bits", f"{dt.__name__} byte {b} reads {int(a[b])}, model says {want}")
+                return
+        ck.count(256)
+
+
+def run(ck) -> None:
+    import logging
+    import shutil
+    logging.disable(logging.WARNING)
+    ck.trust("Coq 8.16.1 kernel (coqc; vm_compute in the table theorem, the byte sweeps and the case files)",
+             "harness/props/c04.py: fail-closed ast extraction of the dtype tables and dispatch sets (Gen/C04Gen.v), "
+             "generators, observation of numpy()/tobytes()/tofile(), Coq literal printer, reference packer",
+             "modelled not verified: numpy (view/astype wrap-around/frombuffer/resize/tofile), ml_dtypes storage of "
+             "sub-byte types (checked on all 256 bytes every run), protobuf field presence and float bit preservation, "
+             "mmap, os.copy_file_range (any schedule of partial copies), torch storage bytes, Python file objects")
+    ck.assumptions += ["little-endian platform (the big-endian byte swaps are not modelled)",
+                       "nbytes: math.ceil(bitwidth/8 * size) is exact (size < 2^50)",
+                       "numpy/ml_dtypes/onnx/protobuf/torch as installed in /venv",
+                       "BOOL elements are 0/1; element bit patterns are in range for the dtype"]
+    ck.coverage["rule"] = ("non-trivial = sub-byte dtype with a partial last byte, external data with a prefix or ending "
+                           "at end of file, proto storage field other than raw_data, tofile at a non-zero position, "
+                           "size 0, or a malformed input")
+    generate(ck)
+    ck.prove()
+    env_contract_subbyte(ck)
+    wd = os.path.join(ck.scratch, "w")
+    os.makedirs(wd, exist_ok=True)
+
+    # ---- corpus first, then generated cases
+    specs = []
+    cdir = os.path.join(common.CORPUS, "C04")
+    if os.path.isdir(cdir):
+        for fn in sorted(os.listdir(cdir)):
+            if fn.endswith(".json"):
+                with open(os.path.join(cdir, fn)) as f:
+                    js = json.load(f)
+                specs += js if isinstance(js, list) else [js]
+    ck.coverage["corpus_cases"] = len(specs)
+    specs += gen_wellformed(ck) + gen_malformed(ck)
+    cases, failures = [], []
+    for i, spec in enumerate(specs):
+        spec.setdefault("params", {})
+        spec.setdefault("dests", [])
+        obs, bad = check_spec(spec, wd)
+        cases.append((spec, obs))
+        ck.count()
+        ck.hist("dtype", spec["dtype"])
+        ck.hist("representation", spec["rep"] + (":" + str(spec["params"].get("field") or spec["params"].get("variant") or "")
+                                                 if spec["rep"] in ("proto", "array", "torch") else ""))
+        ck.hist("size", str(len(spec["bits"])) if len(spec["bits"]) < 10 else "10+")
+        ck.hist("rank", str(len(spec["shape"])))
+        for d in spec["dests"]:
+            ck.hist("destination", d["kind"] + (":pos>0" if d["pos"] else ":pos=0"))
+        if spec.get("malformed"):
+            ck.hist("malformed", spec["malformed"])
+            out = obs.get("construct_error") or "/".join(o[1] if o[0] == "raise" else "ok" for o in (obs["numpy"], obs["tobytes"]))
+            ck.hist("malformed_outcome", out)
+        if nontrivial(spec):
+            ck.nontriv({k: spec[k] for k in ("dtype", "shape", "bits", "rep", "params")})
+        if bad:
+            failures.append((spec, bad))
+        if i % 997 == 3:
+            ck.sample({"spec": {k: spec[k] for k in ("dtype", "shape", "bits", "rep", "params", "dests")},
+                       "tobytes": obs.get("tobytes", ("?",))[1].hex() if obs.get("tobytes", ("raise",))[0] == "ok" else None})
+    ck.coverage["traces_validated_against_impl"] = len(cases)
+    try:
+        mism = correspondence(ck, cases, "cases")
+    except RuntimeError as e:
+        mism = []
+        ck.broken("correspondence:case-file", str(e))
+    for i in mism[:6]:
+        spec, obs = cases[i]
+        ck.broken("correspondence:C04.Model", json.dumps(
+            {"spec": spec, "impl": {k: (v if not isinstance(v, bytes) else v.hex()) for k, v in obs.items()}}, default=repr))
+    mism_specs = [cases[i][0] for i in mism]
+
+    # ---- string tensors
+    sc = string_cases(ck)
+    sterms, sfail = [], []
+    for kind, shape, ss, with_nul in sc:
+        o = observe_string(kind, shape, ss)
+        ck.count()
+        ck.hist("representation", "string:" + kind)
+        nl = lambda v: clist(cN(x) for x in v)  # noqa: E731
+        sterms.append(f"(mkscase {o['term']} {clist(nl(x) for x in o['numpy'])} {clist(nl(x) for x in o['data'])} {cN(o['nbytes'])})")
+        bad = oracle_string(kind, shape, ss, o)
+        if o["tobytes"] != "ValueError":
+            bad.append("tobytes() of a string tensor did not raise ValueError")
+        if bad:
+            sfail.append((kind, shape, ss, bad))
+        if with_nul:
+            ck.nontriv(("string", kind, [x.hex() for x in ss]))
+    text = CASE_HEADER + "Definition scases : list scase :=\n  " + clist(sterms).replace("; (mkscase", ";\n  (mkscase") \
+        + ".\nEval vm_compute in (failing sagree scases).\n"
+    try:
+        for i in ck.coq_failing(text, "strings"):
+            ck.broken("correspondence:C04.Model.strings", json.dumps({"kind": sc[i][0], "strings": [x.hex() for x in sc[i][2]]}))
+    except RuntimeError as e:
+        ck.broken("correspondence:case-file-strings", str(e))
+
+    # ---- known findings: replayed on the implementation on every run
+    for k in ck._known:
+        if k.get("status") != "known":
+            continue
+        w = k["witness"]
+        if k["key"] == "string-trailing-nul":
+            ss = [bytes.fromhex(x) for x in w["strings_hex"]]
+            o = observe_string(w["kind"], w["shape"], ss)
+            if oracle_string(w["kind"], w["shape"], ss, o):
+                ck.known_finding(k["key"], k["what"])
+            else:
+                ck.broken(f"known-finding-stale:{k['key']}", "the recorded witness no longer fails; C04_string_trailing_nul_refuted "
+                          "describes a defect the code no longer has")
+        else:
+            _, bad = check_spec(w, wd)
+            if bad:
+                ck.known_finding(k["key"], k["what"])
+            else:
+                ck.broken(f"known-finding-stale:{k['key']}", "the recorded witness no longer fails")
+    for kind, shape, ss, bad in sfail:
+        if is_known_string(kind, ss, bad) and ck.known("string-trailing-nul"):
+            ck.known_finding("string-trailing-nul", ck.known("string-trailing-nul")["what"])
+        else:
+            ck.violation({"kind": "oracle-string", "strings": {"kind": kind, "shape": shape, "strings_hex": [x.hex() for x in ss]},
+                          "failures": bad})
+
+    # ---- oracle failures: shrink and report (one per distinct signature)
+    def fails(sp):
+        try:
+            return bool(check_spec(sp, wd)[1])
+        except Exception:  # noqa: BLE001
+            return False
+    seen = set()
+    for spec, bad in failures:
+        sig = (spec["dtype"] if BW(spec["dtype"]) < 8 else "whole", spec["rep"], spec["params"].get("field"),
+               spec["params"].get("variant"), bad[0].split(" ")[0])
+        if sig in seen:
+            continue
+        seen.add(sig)
+        if len(seen) > 5:
+            break
+        small = shrink(spec, wd, fails)
+        ck.violation({"kind": "oracle", "spec": small, "failures": check_spec(small, wd)[1], "broken": [b["name"] for b in ck.broken_items]})
+
+    # ---- something broken, nothing concrete yet: search
+    if ck.broken_items and not ck.violations:
+        search(ck, wd, mism_specs, fails)
+    shutil.rmtree(wd, ignore_errors=True)
+
+
+def search(ck, wd: str, seeds: list[dict], fails) -> None:
+    """violation search after a broken proof obligation / correspondence: the diverging cases and their
+    shrunk versions first, then fresh cases biased to the features the theorems are about"""
+    tried = 0
+    for spec in seeds:
+        if spec.get("malformed"):
+            continue
+        for cand in (spec, dict(spec, bits=spec["bits"][:1], shape=[1]) if spec["bits"] else spec):
+            tried += 1
+            if fails(cand):
+                small = shrink(cand, wd, fails)
+                ck.violation({"kind": "oracle-after-broken-obligation", "spec": small, "failures": check_spec(small, wd)[1],
+                              "broken": [b["name"] for b in ck.broken_items]})
+                return
+    rng = ck.rng
+    budget = 1500 if not ck.thorough else 20000
+    names = NUMERIC()
+    sub = [n for n in names if BW(n) < 8]
+    for i in range(budget):
+        name = rng.choice(sub if i % 2 == 0 else names)
+        n = rng.choice([1, 2, 3, 5, 7, 9, 16, 33])
+        rep, params = rng.choice(rep_variants(name))
+        spec = {"dtype": name, "shape": rng.choice(shapes_for(rng, n)), "bits": gen_bits(rng, name, n, rng.choice(["random", "count", "ones"])),
+                "rep": rep, "params": params, "dests": gen_dests(rng, ref_nbytes(name, n), full=True)}
+        ck.count()
+        if fails(spec):
+            small = shrink(spec, wd, fails)
+            ck.violation({"kind": "oracle-after-broken-obligation", "spec": small, "failures": check_spec(small, wd)[1],
+                          "broken": [b["name"] for b in ck.broken_items]})
+            return
+
+
+def replay(rp: dict) -> int:
+    import logging
+    import shutil
+    logging.disable(logging.WARNING)
+    wd = os.path.join(common.SCRATCH_ROOT, f"replay-C04-{os.getpid()}")
+    os.makedirs(wd, exist_ok=True)
+    try:
+        if rp.get("strings"):
+            w = rp["strings"]
+            ss = [bytes.fromhex(x) for x in w["strings_hex"]]
+            bad = oracle_string(w["kind"], w["shape"], ss, observe_string(w["kind"], w["shape"], ss))
+            print(json.dumps({"strings": w, "failures": bad}, indent=1))
+            return 1 if bad else 0
+        spec = rp.get("spec")
+        if spec is None:
+            print("replay names a broken obligation/correspondence, no concrete input:",
+                  json.dumps(rp.get("broken"), indent=1)[:3000])
+            return 1
+        spec.setdefault("params", {})
+        spec.setdefault("dests", [])
+        _, bad = check_spec(spec, wd)
+        print(json.dumps({"spec": spec, "failures": bad}, indent=1))
+        return 1 if bad else 0
+    finally:
+        shutil.rmtree(wd, ignore_errors=True)
+
+
 if __name__ == "__main__":
     print(gen_text())
